@@ -65,6 +65,9 @@ func ruleCursorUp(w *World, r *Report, pfx string) {
 			if iWrite >= 0 && iStore < 0 {
 				bad = "the line count of the frame is not remembered for the next Flush"
 			}
+			if iClear >= 0 && iStore >= 0 && iStore < iClear {
+				bad = "the new line count is remembered before the previous frame is cleared: the count of the frame about to be written is cleared instead of the one on screen"
+			}
 			if iWrite < 0 {
 				// the only way out without writing the frame is the failure of the clearing step
 				errT := types.Universe.Lookup("error").Type()
